@@ -214,6 +214,33 @@ def run(ctx, rep):
         rep.check(at_bad == want_bad and at_ref == want_ref and want_ref, 'R-C04-4', 'scrub: every stripe with a silent/io error is marked bad, every clean stripe is refreshed', f.blocks[d][-1].loc(),
                   '%d tuples at the decision; to mark %s; to refresh %s' % (len(T), sorted(at_bad), sorted(at_ref)), function='state_scrub_process', construct='decision exhaustive')
 
+    # the bad mark must preserve every other field of the info word (time, rehash, justsynced): only `info | bad-bit` does
+    rep.rule('R-C04-4p', 'bad marks preserve the stripe info: info_set(pos, info_set_bad(info_get(pos))) and info_set_bad only ORs a constant', 3)
+    isb = P.fn('info_set_bad')
+    ops_ = [i for i in isb.all_insts() if i.op in ('or', 'and', 'xor', 'shl', 'lshr', 'add', 'sub')]
+    rep.check(len(ops_) == 1 and ops_[0].op == 'or' and isb.const_of(ops_[0].ops[1]) is not None, 'R-C04-4p', 'info_set_bad(info) == info | constant', isb.file, '', function='info_set_bad', construct='preserving')
+    for fname2 in ('state_scrub_process', 'state_sync_process'):
+        h = P.fn(fname2)
+        sets = list(h.calls('info_set'))
+        unclassified = []
+        nb = 0
+        for x in sets:
+            vi = h.inst_of(x.ops[2])
+            if vi is not None and vi.op == 'call' and vi.callee == 'info_set_bad':
+                src = h.inst_of(vi.ops[0])
+                # argument is the local `info` loaded from info_get(&state->infoarr, <same position>)
+                okk = h.expr(vi.ops[0]) == 'info' and any(i.op == 'store' and h.expr(i.ops[1]) == '&info' and 'info_get(&state->infoarr,%s)' % h.expr(x.ops[1]) == h.expr(i.ops[0]) and h.dominates(i, x) for i in h.all_insts())
+                if okk:
+                    nb += 1
+                else:
+                    unclassified.append(x)
+            elif vi is not None and vi.op == 'call' and vi.callee == 'info_make' and h.expr(vi.ops[0]) == 'now' and h.const_of(vi.ops[1]) == 0 and h.const_of(vi.ops[2]) == 0:
+                pass    # refresh: new time, flags cleared (typestate checked by R-C04-4 / R-C06-2)
+            else:
+                unclassified.append(x)
+        rep.check(not unclassified and nb >= 1, 'R-C04-4p', '%s: every info update is a preserving bad mark or a refresh' % fname2, (unclassified[0].loc() if unclassified else h.file),
+                  '%d bad marks' % nb if not unclassified else 'info word rebuilt by %s: fields of the stripe info (e.g. the rehash bit) can be lost' % h.expr(unclassified[0].ops[2])[:80], function=fname2, construct='info update')
+
     # ---- check
     g = P.fn('state_check_process')
     rep.analysed(g)
